@@ -9,7 +9,7 @@
    no triangle is degenerate, no directed edge is used twice and the reverse of every used directed edge is
    used too — i.e. a closed (boundaryless, 2-manifold-edged), consistently oriented surface. *)
 From PF Require Import Gen.Closed Gen.ClosedProofs Gen.FamilyProofs Gen.Sphere Gen.Hemisphere Gen.Cylinder Gen.Cube
-  Gen.CylinderProofs Gen.SphereProofs Gen.CubeProofs Gen.CylinderGeom Gen.SphereGeom Gen.CylinderVolume Gen.CylinderMono Gen.SphereVolume Gen.HemiVolume Gen.CubeClasses Gen.GenProofs.
+  Gen.CylinderProofs Gen.SphereProofs Gen.CubeProofs Gen.CylinderGeom Gen.SphereGeom Gen.CylinderVolume Gen.CylinderMono Gen.SphereVolume Gen.HemiVolume Gen.CubeClasses Gen.VolumeLimits Gen.GenProofs.
 From Coq Require Import Reals.
 Open Scope N_scope.
 
@@ -313,6 +313,72 @@ Theorem hemi_all_faces_outward : forall r c rad y, (2 <= r)%N -> (3 <= c)%N -> 0
   (forall i, (i < c)%N -> rfaces_away (0, y, 0) (hemi_triR r c rad (TF i))).
 Proof. exact HemiVolume.hemi_all_faces_outward. Qed.
 Print Assumptions hemi_all_faces_outward.
+
+(* ---------- round 4: closed forms, explicit error bounds, convergence to the analytic volumes ---------- *)
+
+(* the inscribed prism misses at most the fraction 2 pi^2 / (3 n^2) of the cylinder's volume pi rad^2 h *)
+Theorem cyl_volume_error_bound : forall n rad h, (2 <= n)%N -> 0 <= h ->
+  PI * rad * rad * h - rvol6 (cyl_trisR n rad h) / 6 <= PI * rad * rad * h * (2 * (PI * PI) / (3 * (NR n * NR n))).
+Proof. exact VolumeLimits.cyl_volume_error_bound. Qed.
+Print Assumptions cyl_volume_error_bound.
+
+(* UVSphere(rad, r, c): the ring sum of sphere_volume_is_sum telescopes; enclosed volume in closed form
+   (c sin (2 pi / c) -> 2 pi and 1 + cos (pi / r) -> 2 give 4/3 pi rad^3) *)
+Theorem sphere_volume_closed : forall r c rad, (2 <= r)%N -> (1 <= c)%N ->
+  rvol6 (sph_trisR r c rad) / 6 = NR c * sin (2 * PI / NR c) * (1 + cos (PI / NR r)) / 3 * (rad * rad * rad).
+Proof. exact VolumeLimits.sphere_volume_closed. Qed.
+Print Assumptions sphere_volume_closed.
+
+(* below the ball's volume, by at most pi^3 rad^3 (8 / (9 c^2) + 1 / (3 r^2)): quadratic in the resolution *)
+Theorem sphere_volume_error_bound : forall r c rad, (2 <= r)%N -> (2 <= c)%N -> 0 <= rad ->
+  0 <= 4 / 3 * PI * (rad * rad * rad) - rvol6 (sph_trisR r c rad) / 6
+    <= PI * PI * PI * (rad * rad * rad) * (8 / (9 * (NR c * NR c)) + 1 / (3 * (NR r * NR r))).
+Proof. exact VolumeLimits.sphere_volume_error_bound. Qed.
+Print Assumptions sphere_volume_error_bound.
+
+Theorem sphere_volume_below_analytic : forall r c rad, (2 <= r)%N -> (3 <= c)%N -> 0 < rad ->
+  rvol6 (sph_trisR r c rad) / 6 < 4 / 3 * PI * (rad * rad * rad).
+Proof. exact VolumeLimits.sphere_volume_below_analytic. Qed.
+Print Assumptions sphere_volume_below_analytic.
+
+(* more rows and more columns never lose volume *)
+Theorem sphere_volume_monotone : forall r1 c1 r2 c2 rad, (2 <= r1)%N -> (r1 <= r2)%N -> (2 <= c1)%N -> (c1 <= c2)%N -> 0 <= rad ->
+  rvol6 (sph_trisR r1 c1 rad) / 6 <= rvol6 (sph_trisR r2 c2 rad) / 6.
+Proof. exact VolumeLimits.sphere_volume_monotone. Qed.
+Print Assumptions sphere_volume_monotone.
+
+(* "approaching the analytic volume as resolution grows": whatever way rows and columns grow *)
+Theorem sphere_volume_converges : forall rad eps, 0 <= rad -> 0 < eps ->
+  exists n0 : N, forall r c, (n0 <= r)%N -> (n0 <= c)%N ->
+    Rabs (rvol6 (sph_trisR r c rad) / 6 - 4 / 3 * PI * (rad * rad * rad)) < eps.
+Proof. exact VolumeLimits.sphere_volume_converges. Qed.
+Print Assumptions sphere_volume_converges.
+
+(* Hemisphere{rad}.UV(r, c), rings pi / (2 r) apart, the apex slab two steps high *)
+Theorem hemi_volume_closed : forall r c rad, (2 <= r)%N -> (1 <= c)%N ->
+  let h := PI / (2 * NR r) in
+  rvol6 (hemi_trisR r c rad) / 6 =
+    NR c * sin (2 * PI / NR c) * (sin (2 * h) * sin (2 * h) + (1 + cos h) * cos (2 * h)) / 6 * (rad * rad * rad).
+Proof. exact VolumeLimits.hemi_volume_closed. Qed.
+Print Assumptions hemi_volume_closed.
+
+Theorem hemi_volume_error_bound : forall r c rad, (2 <= r)%N -> (2 <= c)%N -> 0 <= rad ->
+  0 <= 2 / 3 * PI * (rad * rad * rad) - rvol6 (hemi_trisR r c rad) / 6
+    <= PI * PI * PI * (rad * rad * rad) * (4 / (9 * (NR c * NR c)) + 3 / (8 * (NR r * NR r))).
+Proof. exact VolumeLimits.hemi_volume_error_bound. Qed.
+Print Assumptions hemi_volume_error_bound.
+
+Theorem hemi_volume_converges : forall rad eps, 0 <= rad -> 0 < eps ->
+  exists n0 : N, forall r c, (n0 <= r)%N -> (n0 <= c)%N ->
+    Rabs (rvol6 (hemi_trisR r c rad) / 6 - 2 / 3 * PI * (rad * rad * rad)) < eps.
+Proof. exact VolumeLimits.hemi_volume_converges. Qed.
+Print Assumptions hemi_volume_converges.
+
+(* non-vacuity: the smallest sphere (triangular bipyramid, radius 1) and the smallest hemisphere *)
+Example bipyramid_volume : rvol6 (sph_trisR 2 3 1) / 6 = sin (2 * PI / 3).
+Proof. exact VolumeLimits.bipyramid_volume. Qed.
+Example tetra_hemi_volume : rvol6 (hemi_trisR 2 3 1) / 6 = sin (2 * PI / 3) / 2.
+Proof. exact VolumeLimits.tetra_hemi_volume. Qed.
 
 (* ---------- coincidence classes of the boxes derived from the real positions ---------- *)
 (* two of the 24 corners of the six-quad box are the same point exactly when cubeQ_cls merges them; the welded
